@@ -982,13 +982,25 @@ class FortranFile:
             # directives decide where statements begin and end
             if any(char in line for char in "&!;'\"#"):
                 return True
-            for other in (line_no - 1, line_no + 1):
-                if 0 <= other < self.nLines:
+            # The nearest code lines before and after, a continued statement
+            # runs across blank, comment and preprocessor lines
+            for step in (-1, 1):
+                other = line_no + step
+                while 0 <= other < self.nLines:
                     other_line = self.contents_split[other]
+                    comment = FRegex.FIXED_COMMENT if self.fixed else FRegex.FREE_COMMENT
+                    if (
+                        other_line.strip() == ""
+                        or comment.match(other_line)
+                        or FRegex.PP_ANY.match(other_line)
+                    ):
+                        other += step
+                        continue
                     if "&" in other_line or (
                         self.fixed and FRegex.FIXED_CONT.match(other_line)
                     ):
                         return True
+                    break
             if strip_line_label(line)[1] is not None:
                 return True
             return FRegex.NON_DEF.match(line) is None
